@@ -1,18 +1,22 @@
 // ---- shared specification: acknowledgement handling in RenetClient::process_packet ----
 impl RenetClient {
     /// every record of a sent packet names an existing reliable send channel and message ids / slice indices of the kind they were recorded for
-    /// (history invariant: the records are written by get_packets_to_send from the packets it hands out; not established by a check)
+    /// (written by get_packets_to_send from the packets it hands out: established there for every new record and kept by every operation, round 4)
     pub open spec fn record_ok(&self, info: PacketSentInfo) -> bool {
         match info {
             PacketSentInfo::None => true,
             PacketSentInfo::ReliableMessages { channel_id, message_ids } => {
                 &&& self.send_reliable_channels@.contains_key(channel_id)
+                // the ids were handed out before the record was written (so a message submitted later never falls under an old record) ...
+                &&& forall|k: int| 0 <= k < message_ids@.len() ==> (#[trigger] message_ids@[k]) < self.send_reliable_channels@[channel_id].next_reliable_message_id
+                // ... and as long as they are queued they are small messages
                 &&& forall|k: int| 0 <= k < message_ids@.len() ==>
                         (self.send_reliable_channels@[channel_id].unacked_messages@.contains_key(#[trigger] message_ids@[k])
                             ==> self.send_reliable_channels@[channel_id].unacked_messages@[message_ids@[k]] is Small)
             },
             PacketSentInfo::ReliableSliceMessage { channel_id, message_id, slice_index } => {
                 &&& self.send_reliable_channels@.contains_key(channel_id)
+                &&& message_id < self.send_reliable_channels@[channel_id].next_reliable_message_id
                 &&& (self.send_reliable_channels@[channel_id].unacked_messages@.contains_key(message_id) ==>
                         (self.send_reliable_channels@[channel_id].unacked_messages@[message_id] matches
                             UnackedMessage::Sliced { message, num_slices, num_acked_slices, next_slice_to_send, acked, last_sent } && slice_index < num_slices))
@@ -63,6 +67,20 @@ impl RenetClient {
 }
 
 impl RenetClient {
+    /// RenetClient::update keeps the record invariant: by its contract (unit U18, clauses `update.sent_records_only_removed` and `update.frame`)
+    /// records are only removed and the reliable send channels are untouched
+    pub proof fn lemma_records_ok_after_update(pre: RenetClient, post: RenetClient)
+        requires
+            pre.records_ok(),
+            post.send_reliable_channels@ == pre.send_reliable_channels@,
+            forall|q: u64| #[trigger] post.sent_packets@.contains_key(q) ==> pre.sent_packets@.contains_key(q) && post.sent_packets@[q] == pre.sent_packets@[q],
+        ensures post.records_ok(),
+    {
+        assert forall|q: u64| #[trigger] post.sent_packets@.contains_key(q) implies post.record_ok(post.sent_packets@[q].info) by {
+            assert(pre.record_ok(pre.sent_packets@[q].info));
+        }
+    }
+
     /// transitivity of `send_reliable_only_released`
     pub proof fn lemma_only_released_trans(a: RenetClient, b: RenetClient, c: RenetClient)
         requires Self::send_reliable_only_released(a, b), Self::send_reliable_only_released(b, c),
